@@ -59,7 +59,22 @@ func cgProgram(r *rand.Rand) []cgBlock {
 		dupUser = users[r.Intn(len(users))]
 	}
 	stmt := func(indent string, allowGoto bool) string {
-		switch k := r.Intn(17); {
+		switch k := r.Intn(21); {
+		case k >= 17 && len(funcs) > 0:
+			// a functional subroutine looked up through the function table: switch control, function-call
+			// statement, argument of a built-in, operand of an if-expression
+			f := funcs[r.Intn(len(funcs))]
+			switch k {
+			case 17:
+				return indent + "switch (" + f + "()) {\n" + indent + "case \"a\":\n" + indent + "  set req.http.W = \"1\";\n" + indent + "  break;\n" + indent + "default:\n" + indent + "  break;\n" + indent + "}\n"
+			case 18:
+				return indent + f + "();\n"
+			case 19:
+				return indent + "set req.http.U = std.toupper(" + f + "());\n"
+			}
+			return indent + "set req.http.I = if(req.http.C, " + f + "(), \"n\");\n"
+		case k >= 17:
+			return indent + "set req.http.S = \"s\";\n"
 		case k == 14:
 			// regex captures: the counters of the capture variables belong to the subroutine being linted
 			if r.Intn(2) == 0 {
